@@ -48,6 +48,17 @@ func RegisterCompositeCodec(name string, codec CompositeCodec) {
 	compositeCodecs[name] = codec
 }
 
+// EncodePersistedString encodes a string so that it survives JSON, which cannot carry arbitrary bytes:
+// a string that is valid UTF-8 comes out quoted as is, any other byte is escaped.
+func EncodePersistedString(s string) string {
+	return strconv.Quote(s)
+}
+
+// DecodePersistedString is the inverse of EncodePersistedString.
+func DecodePersistedString(s string) (string, error) {
+	return strconv.Unquote(s)
+}
+
 type persistedScalar struct {
 	Type  string `json:"Type"` // string | int | int64 | float | nil
 	Value string `json:"Value"`
@@ -64,7 +75,7 @@ func encodeScalar(v interface{}) (persistedScalar, bool) {
 	case nil:
 		return persistedScalar{Type: "nil"}, true
 	case string:
-		return persistedScalar{Type: "string", Value: t}, true
+		return persistedScalar{Type: "string", Value: EncodePersistedString(t)}, true
 	case int:
 		return persistedScalar{Type: "int", Value: strconv.Itoa(t)}, true
 	case int64:
@@ -80,7 +91,7 @@ func decodeScalar(s persistedScalar) (interface{}, error) {
 	case "nil":
 		return nil, nil
 	case "string":
-		return s.Value, nil
+		return DecodePersistedString(s.Value)
 	case "int":
 		return strconv.Atoi(s.Value)
 	case "int64":
@@ -106,10 +117,11 @@ func (k KeyData) MarshalJSON() ([]byte, error) {
 	switch v := k.Value.(type) {
 	case []string:
 		out.Type = "list"
-		if v == nil {
-			v = []string{}
+		elements := make([]string, len(v))
+		for i, element := range v {
+			elements[i] = EncodePersistedString(element)
 		}
-		out.Value, err = json.Marshal(v)
+		out.Value, err = json.Marshal(elements)
 	case map[string]interface{}:
 		out.Type = "hash"
 		fields := make(map[string]persistedScalar, len(v))
@@ -118,7 +130,7 @@ func (k KeyData) MarshalJSON() ([]byte, error) {
 			if !ok {
 				return nil, fmt.Errorf("hash field %s has unsupported type %T", field, value)
 			}
-			fields[field] = s
+			fields[EncodePersistedString(field)] = s
 		}
 		out.Value, err = json.Marshal(fields)
 	default:
@@ -175,11 +187,14 @@ func (k *KeyData) UnmarshalJSON(b []byte) error {
 		return nil
 	case "list":
 		list := []string{}
-		if err := json.Unmarshal(in.Value, &list); err != nil {
+		var err error
+		if err = json.Unmarshal(in.Value, &list); err != nil {
 			return err
 		}
-		if list == nil {
-			list = []string{}
+		for i, element := range list {
+			if list[i], err = DecodePersistedString(element); err != nil {
+				return err
+			}
 		}
 		k.Value = list
 		return nil
@@ -194,7 +209,11 @@ func (k *KeyData) UnmarshalJSON(b []byte) error {
 			if err != nil {
 				return err
 			}
-			hash[field] = v
+			name, err := DecodePersistedString(field)
+			if err != nil {
+				return err
+			}
+			hash[name] = v
 		}
 		k.Value = hash
 		return nil
